@@ -69,6 +69,14 @@ def make_cases(rng, tier):
         for (sa, sb) in ((9, 5), (2, 5)):
             import copy
             add([("grant", None, sa, block([copy.deepcopy(sh)], ret(emath(mvar("quota"))))), ("report", None, sb, block([], ret(emath(mvar("quota")))))], [inj_func("Mark")], twice=True)
+    # the same compiled rules executed first WITHOUT a name injected (the writer's assignment binds a local, the reader finds nothing)
+    # and then WITH it injected as a pointer: the writer must now write the injected scalar — nothing about a name is remembered
+    for tv in (tv_int("i64", 1), tv_int("u8", 3)):
+        c = make_multi_case(cid, [("writer", None, 9, block([assign(("var", "Total"), "=", ("math", mint(7)))])),
+                                  ("reader", None, 5, block([assign(("var", "seen"), "=", ("math", mk_mbin("+", mint(0), mint(1))))], ret(emath(mvar("seen")))))], [])
+        c["reinject"], c["inject2"] = True, [inj_ptr("Total", tv)]
+        cases.append(c)
+        cid += 1
     # OVERLAPPING executions (concurrent model, rule A held at a gate between the write and the read of its local): rule B binds
     # the same local name meanwhile — from a struct field, a nested field, a slice element (addressable sources), a constant
     gate = lambda: scall(call("func", "Gate", [("const", kstr("gate"))]))
@@ -146,6 +154,9 @@ def main(run):
             dumps = {d["name"]: d for d in o["store"]}
             sid = 100000 + c["id"]
             items.append(coq_mcase(c, o["second"], init_dumps=dumps, cid=sid))
+        if c.get("reinject") and o.get("second"):
+            # the second execution ran on OTHER injected data (inject2): one more case with the same expected behaviour as a first execution
+            items.append(coq_mcase(dict(c, inject=c["inject2"]), o["second"], cid=100000 + c["id"]))
     mm = evaluate_multi(PID, items)
     # the same multi-rule texts read by the reader model (Lang/Reader.v) inside Coq: its rules, in text order, must be the printer's
     rmm, _ = evaluate_reader(PID, [coq_rcase(c["id"], c["text"], ("tree", c["rules_ast"])) for c, o in zip(cases, obs) if not o.get("compile")], shard=16)
